@@ -16,9 +16,13 @@ import (
 	"os"
 	"os/exec"
 	"path/filepath"
+	"runtime"
+	"strconv"
 	"strings"
 	"sync/atomic"
+	"syscall"
 	"time"
+	"unsafe"
 
 	"verifsim/detsim"
 	"verifsim/simsync"
@@ -100,11 +104,63 @@ func raceSub(report string) string {
 	return strings.Join(fr, "~")
 }
 
+// oneCPU: with VERIF_ONECPU=<k> the worker restricts itself to the k-th CPU it is allowed to use and starts over, so that the
+// Go runtime of the process that runs the simulations (and of every process it starts) reports NumCPU() == 1 - the machine a
+// small container or a one-core virtual machine is. The number of CPUs is read once, when a process starts.
+func oneCPU() {
+	v := os.Getenv("VERIF_ONECPU")
+	if v == "" || os.Getenv("VERIF_ONECPU_SET") != "" {
+		return
+	}
+	k, _ := strconv.Atoi(v)
+	var mask [16]uint64
+	if _, _, e := syscall.RawSyscall(syscall.SYS_SCHED_GETAFFINITY, 0, uintptr(len(mask)*8), uintptr(unsafe.Pointer(&mask[0]))); e != 0 {
+		return
+	}
+	var allowed []int
+	for i := 0; i < len(mask)*64; i++ {
+		if mask[i/64]&(1<<uint(i%64)) != 0 {
+			allowed = append(allowed, i)
+		}
+	}
+	if len(allowed) < 2 {
+		return
+	}
+	cpu := allowed[k%len(allowed)]
+	mask = [16]uint64{}
+	mask[cpu/64] = 1 << uint(cpu%64)
+	if _, _, e := syscall.RawSyscall(syscall.SYS_SCHED_SETAFFINITY, 0, uintptr(len(mask)*8), uintptr(unsafe.Pointer(&mask[0]))); e != 0 {
+		return
+	}
+	os.Setenv("VERIF_ONECPU_SET", "1")
+	exe, err := os.Executable()
+	if err != nil {
+		return
+	}
+	syscall.Exec(exe, os.Args, os.Environ())
+}
+
+func arch() string {
+	if runtime.GOARCH == "amd64" {
+		return ""
+	}
+	return runtime.GOARCH
+}
+
+// applyEnv puts a replaying process into the environment the finding process had.
+func applyEnv(rf *detsim.ReplayFile) {
+	if rf.OneCPU != "" && os.Getenv("VERIF_ONECPU_SET") == "" {
+		os.Setenv("VERIF_ONECPU", rf.OneCPU)
+		oneCPU()
+	}
+}
+
 func main() {
 	if len(os.Args) < 2 {
 		fmt.Fprintln(os.Stderr, "usage: simworker batch|replay|shrink ...")
 		os.Exit(2)
 	}
+	oneCPU()
 	simsync.StartWatchdog(60*time.Second, func() bool { return atomic.LoadInt32(&simRunning) == 1 })
 	switch os.Args[1] {
 	case "batch":
@@ -205,6 +261,12 @@ func batch(args []string) {
 		res.Steps += int64(rep.Steps)
 		res.LogHashXor ^= detsim.HashAdd(rep.LogHash, idx)
 		res.Counters.Merge(rep.Counters)
+		if runtime.NumCPU() == 1 {
+			res.Counters.Add("runs_in_a_process_that_sees_one_cpu", 1)
+		}
+		if arch() != "" {
+			res.Counters.Add("runs_in_a_"+arch()+"_process", 1)
+		}
 		res.Faults.Merge(rep.Faults)
 		res.Probes.Merge(rep.Probes)
 		inter.Add(rep.SwitchHash)
@@ -242,7 +304,7 @@ func batch(args []string) {
 			}
 			seenSig[sig] = true
 			raw, _ := json.Marshal(plan)
-			rf := &detsim.ReplayFile{Property: *prop, Engine: e.Name(), Tier: *tier, BatchSeed: *seed, Index: idx, RunSeed: runSeed,
+			rf := &detsim.ReplayFile{Property: *prop, Engine: e.Name(), Tier: *tier, BatchSeed: *seed, Index: idx, RunSeed: runSeed, OneCPU: os.Getenv("VERIF_ONECPU"), Arch: arch(),
 				RepoTreeHash: *treeHash, Plan: raw, Choices: rec, Violation: v, EventLogHash: fmt.Sprintf("%016x", rep.LogHash), WorkerFrom: *from}
 			path := filepath.Join(*rdir, fmt.Sprintf("%s-%d-%d-%s.json", *prop, *seed, idx, v.Class))
 			if err := rf.Write(path); err != nil {
@@ -290,6 +352,7 @@ func replay(args []string) {
 		fmt.Fprintln(os.Stderr, "simworker:", err)
 		os.Exit(2)
 	}
+	applyEnv(rf)
 	e := engineFor(rf.Property, "")
 	plan, err := e.Decode(rf.Plan)
 	if err != nil {
@@ -394,6 +457,7 @@ func shrink(args []string) {
 		fmt.Fprintln(os.Stderr, "simworker:", err)
 		os.Exit(2)
 	}
+	applyEnv(rf)
 	var test detsim.Tester
 	fresh := false
 	if fp, ok := e.(detsim.FreshProcesser); ok && fp.FreshProcess(plan) {
@@ -444,7 +508,7 @@ func runFresh(e detsim.Engine, prop, tier string, seed, idx, runSeed uint64, pla
 	outp := in + ".out"
 	defer os.Remove(in)
 	defer os.Remove(outp)
-	rf := &detsim.ReplayFile{Property: prop, Engine: e.Name(), Tier: tier, BatchSeed: seed, Index: idx, RunSeed: runSeed, Plan: raw, Seeded: true}
+	rf := &detsim.ReplayFile{Property: prop, Engine: e.Name(), Tier: tier, BatchSeed: seed, Index: idx, RunSeed: runSeed, Plan: raw, Seeded: true, OneCPU: os.Getenv("VERIF_ONECPU"), Arch: arch()}
 	if err := rf.Write(in); err != nil {
 		fmt.Fprintln(os.Stderr, "simworker:", err)
 		os.Exit(2)
